@@ -62,10 +62,22 @@ RULE = ('program trees: random (depth <= 5, counts 1-4, 1-4 children, leaf kinds
         'constructors, around constants and around ramps) as leaves x to_waveform next to equal / other constants, '
         'make_compatible into one waveform, roll_constant_waveforms, flatten_and_balance, unroll_children (273 cases, the '
         'same in every seed). '
+        'Round 6: every leaf waveform is sampled through Waveform.get_sampled as well (the entry point of the drivers: '
+        'constant_value short cut, cache, with and without an output array, asked twice) and compared with unsafe_sample, '
+        'before and after every rewrite and on to_waveform(program); kind cv: constant_value(channel) of every leaf '
+        'waveform the rewrite built and of to_waveform(program), with the answers of the opaque atoms, compared with '
+        'Model_cv.constant_value and judged admissible for the pieces in Coq (every 8th rewrite / 4th to_waveform case of '
+        'the random streams once more in this form); deterministic family of constant LEVEL runs (12 orders of 0 / x / y '
+        'levels, zero as 0.0 / int 0 / -0.0, one channel / next to a constant channel / as second channel / next to a '
+        'ramp channel) x to_waveform, make_compatible keeping / unrolling the repetition, merging an inner node '
+        '(320 + 64 cases, the same in every seed). '
         'Non-trivial = the rewrite returned and changed the tree, or failed with an error, on a program with >= 3 '
         'nodes; distinct = distinct canonical JSON of the case.')
 TRUSTED = [
     'Coq 8.16.1 kernel + vm_compute (no native_compute)',
+    'constant_value(channel) of an opaque atom (table, multi-channel waveform with a non-constant channel, wrapper classes) '
+    'is an oracle observed on the real object (Model_cv.acv); that an atom keeps its own promise is the hypothesis acv_sound '
+    'of C06_get_sampled_eq_unsafe_sample and is tested by the get_sampled / unsafe_sample comparison on every leaf',
     'harness: generators, program builder from JSON recipes, describer Loop -> model tree (atoms named by waveform '
     'equality; constant waveforms by constant_value_dict), reference player used for the sample comparison, Gallina printers',
     'leaf waveform classes (Table/Constant/MultiChannel/Reversed sampling) are C08\'s subject; here a non-constant leaf '
@@ -127,8 +139,12 @@ def build_wf(d):
     k = d['k']
     if k == 'const':
         dur = _fr(d['d'])
+        # round 6: `zk` = how a level that is a whole number / zero is handed over: float (default), Python int, -0.0
+        zk = d.get('zk')
+        val = lambda v: (int(_fr(v)) if zk == 'int' and _fr(v).denominator == 1 else
+                         -0.0 if zk == 'neg' and _fr(v) == 0 else float(_fr(v)))
         return ConstantWaveform.from_mapping(TimeType.from_fraction(dur.numerator, dur.denominator),
-                                             {c: float(_fr(v)) for c, v in d['v'].items()})
+                                             {c: val(v) for c, v in d['v'].items()})
     if k == 'table':
         from qupulse.pulses.interpolation import (HoldInterpolationStrategy, JumpInterpolationStrategy,
                                                   LinearInterpolationStrategy)
@@ -359,6 +375,64 @@ def describe_wf(wf, reg):
     return ['A', reg.atom(wf), vlib.frac_json(wf.duration)]
 
 
+def describe_wf_cv(wf, reg, acv, chans):
+    """describe_wf + what every opaque atom answers to constant_value(channel) (the oracle `acv` of Model_cv.v)"""
+    from qupulse.program.waveforms import SequenceWaveform, RepetitionWaveform
+    if isinstance(wf, RepetitionWaveform):
+        return ['R', describe_wf_cv(wf._body, reg, acv, chans), int(wf._repetition_count)]
+    if isinstance(wf, SequenceWaveform):
+        return ['S', [describe_wf_cv(x, reg, acv, chans) for x in wf.sequenced_waveforms]]
+    d = describe_wf(wf, reg)
+    if d[0] == 'A':
+        acv[d[1]] = sorted([CH[c], _cv_json(wf.constant_value(c))] for c in chans)
+    return d
+
+
+def _cv_json(v):
+    return None if v is None else vlib.frac_json(v)
+
+
+def _run_cv(case, prog, reg, obs, chans, times, before):
+    """Round 6 (seed C06-9 class): the per-channel constant_value(channel) of the waveforms the rewrites BUILD — every
+    leaf waveform of the program after the rewrite and to_waveform(program) — observed together with the answers of the
+    opaque atoms; Coq side: CCv (model Model_cv.constant_value = observation; every answer admissible for the pieces)."""
+    from qupulse.program.loop import to_waveform
+    op = case['op']
+    wfs, whole = [], None
+    with vlib.time_limit(op_time_limit() * 3):
+        if op[0] != 'twf':
+            try:
+                apply_op(prog, case['path'], op)
+            except (RuntimeError, ValueError, AssertionError, ZeroDivisionError, IndexError) as e:
+                obs['err'] = ERRS.get(type(e).__name__, 'EDomain')
+            for n in prog.get_depth_first_iterator():
+                if n.is_leaf() and n.waveform is not None and not any(n.waveform is w for w in wfs):
+                    wfs.append(n.waveform)
+        obs['after'] = describe_tree(prog, reg)
+        if _counts_positive(obs['after']):
+            try:
+                whole = to_waveform(prog.copy_tree_structure())
+                if whole is not None:         # a program that is one empty loop: to_waveform hands back its `None`
+                    wfs.append(whole)
+            except (ValueError, AssertionError, AttributeError, TypeError):
+                pass
+    acv, items = {}, []
+    for wf in wfs[:12]:
+        d = describe_wf_cv(wf, reg, acv, chans)
+        for c in chans:
+            items.append([d, CH[c], _cv_json(wf.constant_value(c))])
+    obs['acv'] = sorted([k, v] for k, v in acv.items())
+    obs['items'] = items
+    gs_bad = []
+    play(prog, chans, times, gs_bad)
+    if whole is not None and len(times) and 'err' not in obs:
+        wf = whole
+        gs_bad.extend(b for b in (gs_differs(wf, c, times, wf.unsafe_sample(c, times)) for c in chans) if b is not None)
+    if gs_bad:
+        obs['gs_bad'] = gs_bad[:3]
+    return obs
+
+
 def _counts_positive(t):
     """to_waveform is only meant for programs whose counts are all >= 1 (what create_program produces)"""
     return t['r'] >= 1 and all(_counts_positive(c) for c in t['c'])
@@ -432,9 +506,26 @@ def channels_of(node):
     return []
 
 
-def play(node, channels, times):
+def gs_differs(wf, c, local, us):
+    """Round 6: what the hardware drivers call is Waveform.get_sampled (constant_value short cut, sample cache, optional
+    output array), not unsafe_sample.  Both entry points must give the same voltages, with and without an output array,
+    and the first answer must not change when it is asked again."""
+    import numpy as np
+    first = np.array(wf.get_sampled(c, local))
+    into = wf.get_sampled(c, local, output_array=np.full(len(local), np.nan))
+    again = np.array(wf.get_sampled(c, local))
+    if not (np.array_equal(first, us, equal_nan=True) and np.array_equal(np.array(into), us, equal_nan=True)
+            and np.array_equal(again, us, equal_nan=True)):
+        cv = wf.constant_value(c)
+        return [type(wf).__name__, c, None if cv is None else str(cv), [float(x) for x in us[:6]], [float(x) for x in first[:6]],
+                [float(x) for x in np.array(into)[:6]]]
+    return None
+
+
+def play(node, channels, times, gs_bad=None):
     """Reference player: the voltages a sequencer outputs when it walks the tree (leaf by leaf, repetitions unrolled);
-    a grid point on a junction belongs to the later piece."""
+    a grid point on a junction belongs to the later piece.  `gs_bad` (a list): every leaf is sampled through
+    Waveform.get_sampled as well (as the drivers do) and disagreements with unsafe_sample are appended."""
     import numpy as np
     from qupulse.utils.types import TimeType
     out = {c: np.full(len(times), np.nan) for c in channels}
@@ -455,6 +546,10 @@ def play(node, channels, times):
                     local = times[lo:hi] - float(t0)
                     for c in channels:
                         out[c][lo:hi] = wf.unsafe_sample(c, local)
+                        if gs_bad is not None and len(gs_bad) < 3:
+                            bad = gs_differs(wf, c, local, out[c][lo:hi])
+                            if bad is not None:
+                                gs_bad.append(bad)
                 t0 = t1
             else:
                 for ch in n:
@@ -544,8 +639,13 @@ def _run_impl(case):
             return _run_idx(case, prog, reg, obs)
         witness_copy = prog.copy_tree_structure()      # shares the waveform objects with prog, nothing else
         times = grid_for(witness_copy.duration)
-        before, end_before = play(prog, chans, times)
+        gs_bad = []
+        before, end_before = play(prog, chans, times, gs_bad)
         obs['n_times'] = int(len(times))
+        if gs_bad:
+            obs['gs_bad_before'] = gs_bad
+    if case['kind'] == 'cv':
+        return _run_cv(case, prog, reg, obs, chans, times, before)
     if case['kind'] == 'twf':
         try:
             with vlib.time_limit(op_time_limit()):
@@ -565,6 +665,10 @@ def _run_impl(case):
         times0 = times.copy()
         smp = {c: wf.unsafe_sample(c, times) if len(times) else np.zeros(0) for c in chans}
         obs['twf_same'] = same_arrays(smp, before) and set(wf.defined_channels) == set(chans)
+        if len(times):
+            bad = [b for b in (gs_differs(wf, c, times, smp[c]) for c in chans) if b is not None]
+            if bad:
+                obs['gs_bad'] = bad[:3]
         # to_waveform must not have touched the program; asking again gives an equal waveform and the same samples
         wf2 = to_waveform(prog)
         smp2 = {c: wf2.unsafe_sample(c, times) if len(times) else np.zeros(0) for c in chans}
@@ -648,7 +752,8 @@ def _run_impl(case):
                 obs['depth'], obs['bal'] = int(node.depth()), bool(node.is_balanced())
             except IndexError:
                 obs['depth'], obs['bal'] = None, None
-        after, end_after = play(prog, chans, times)
+        gs_bad = []
+        after, end_after = play(prog, chans, times, gs_bad)
         obs['play_same'] = same_arrays(before, after) and end_before == end_after
         try:
             prog.assert_tree_integrity()
@@ -661,10 +766,13 @@ def _run_impl(case):
             if wf is not None and len(times):
                 smp = {c: wf.unsafe_sample(c, times) for c in chans}
                 obs['twf_after_same'] = same_arrays(smp, before)
+                gs_bad.extend(b for b in (gs_differs(wf, c, times, smp[c]) for c in chans) if b is not None)
         except vlib.Timeout:
             raise
         except Exception:
             obs['twf_after_same'] = None      # empty leaves / count 0: to_waveform is not defined on such trees
+        if gs_bad:
+            obs['gs_bad'] = gs_bad[:3]
     return obs
 
 
@@ -987,6 +1095,11 @@ def to_coq(case, obs):
         r = '(Ok %s)' % g_wf(obs['wf']) if 'wf' in obs else '(Err %s)' % obs['err']
         return '(CToWf %s %s)' % (g_tree(obs['input']), r)
     gpath = lambda p: glist(lambda i: '%d%%nat' % i, p)
+    if case['kind'] == 'cv':
+        goq = lambda x: gopt(lambda y: gQ(F(y)), x)
+        acv = glist(lambda kv: '(%d%%N, %s)' % (kv[0], glist(lambda cv: '(%d%%N, %s)' % (cv[0], goq(cv[1])), kv[1])), obs['acv'])
+        items = glist(lambda it: '(%s, %d%%N, %s)' % (g_wf(it[0]), it[1], goq(it[2])), obs['items'])
+        return '(CCv %s %s)' % (acv, items)
     if case['kind'] == 'idx':
         io = '(IObsErr %s %s)' % (obs['err'], g_itree(obs['iafter'])) if 'err' in obs else '(IObsOk %s)' % g_itree(obs['iafter'])
         return '(CIdx %s %s %s %s)' % (g_itree(obs['iinput']), gpath(case['path']), g_op(case['op']), io)
@@ -1026,6 +1139,13 @@ def py_spec(case, obs):
         return 'the rewrite did not return within %.0f s' % OP_TIME_LIMIT
     if 'crash' in obs:
         return 'unexpected exception: ' + obs['crash']
+    if obs.get('gs_bad') or obs.get('gs_bad_before'):
+        return ('Waveform.get_sampled (what the drivers upload) differs from unsafe_sample on a leaf waveform %s '
+                '[class, channel, constant_value, unsafe_sample, get_sampled, get_sampled(output_array)]: %r'
+                % ('of the input program' if obs.get('gs_bad_before') else 'after the rewrite / of to_waveform(program)',
+                   (obs.get('gs_bad_before') or obs.get('gs_bad'))[:1]))
+    if case['kind'] == 'cv':
+        return None
     if case['kind'] == 'twf':
         if 'wf' in obs and not obs['twf_same']:
             return 'to_waveform(program) samples differ from the program played leaf by leaf'
@@ -1137,6 +1257,14 @@ def histogram_keys(case, obs):
             why, explained = dec_verdict(case, obs)
             keys.append('dec:' + ('samples_within_tolerance' if why is None else
                                   'float_local_time_explains_mismatch' if explained else 'unexplained_mismatch'))
+    if k == 'cv':
+        keys.append('cv_op:' + case['op'][0])
+        vals = [it[2] for it in obs.get('items', [])]
+        keys.append('cv:' + ('some_channel_constant' if any(v is not None for v in vals) else 'no_channel_constant'))
+        if any(it[0][0] in ('S', 'R') and it[2] is not None for it in obs.get('items', [])):
+            keys.append('cv:composite_answers_a_value')
+        if any(it[0][0] in ('S', 'R') and it[2] is None for it in obs.get('items', [])):
+            keys.append('cv:composite_answers_none')
     if k == 'idx':
         keys.append('idx_op:' + case['op'][0])
         keys.append('idx:' + ('invariant_broken_on_purpose' if case.get('poke') is not None else 'invariant_holds'))
@@ -1644,6 +1772,73 @@ def gen_wrapped_leaves(rng, tier):
     return cases
 
 
+CONST_LEVELS = [['0', '1'], ['0', '0', '1', '1'], ['0', '1', '0'], ['0', '-1/2', '-1/2'], ['1', '0'], ['0', '1', '2'],
+                ['1', '1'], ['0', '0'], ['1', '2'], ['0', '1', '1', '0'], ['-1', '0', '-1'], ['0', '0', '0', '3/4']]
+
+
+def gen_const_levels(rng, tier):
+    """Round 6 (class of seed C06-9): programs whose leaves are constant LEVELS, first among them 0 V (as float 0.0, as
+    the int 0, as -0.0), in the orders 0,x / 0,0,x,x / 0,x,0 / x,0 / 0,x,y / x,x / 0,0 / x,y ...; on one channel, next to
+    a second channel that is constant throughout, as the second channel, and in a two-channel leaf whose other channel
+    is a ramp (an opaque atom that answers constant_value per channel).  make_compatible / to_waveform turn exactly
+    such runs into ONE SequenceWaveform / RepetitionWaveform leaf, which the drivers sample through get_sampled: its
+    constant_value(channel) decides whether anything is sampled at all.  Deterministic (the same in every seed)."""
+    cases = []
+    leaf = lambda w, r=1: {'r': r, 'w': w, 'm': [], 'c': []}
+    node = lambda ch, r=1: {'r': r, 'w': None, 'm': [], 'c': ch}
+    ramp = lambda ch, dur: {'k': 'table', 'ch': ch, 'e': [['0', '1', 'hold'], [str(dur), '0', 'linear']]}
+
+    def const(vals, zk, dur=4):
+        w = {'k': 'const', 'd': str(dur), 'v': vals}
+        if zk:
+            w['zk'] = zk
+        return w
+    for pi, pat in enumerate(CONST_LEVELS):
+        for zk in ([None, 'int', 'neg'] if pi < 4 else [None]):
+            variants = [
+                [const({'A': v}, zk) for v in pat],
+                [const({'A': v, 'B': '1/2'}, zk) for v in pat],
+                [const({'A': '-1/4', 'B': v}, zk) for v in pat],
+                [{'k': 'par', 'l': [const({'A': v}, zk), ramp('B', 4)]} for v in pat],
+            ]
+            for vi, ws in enumerate(variants):
+                tot = 4 * len(ws)
+                b = lambda t, rd=False: {'tree': t, 'style': 'ctor', 'read_dur': rd}
+                cases.append({'kind': 'cv', 'build': b(node([leaf(w) for w in ws], 2)), 'path': [], 'op': ['twf']})
+                cases.append({'kind': 'cv', 'build': b(node([leaf(w) for w in ws], 3), True), 'path': [],
+                              'op': ['make_compat', tot, tot, '1']})                       # merged leaf, count kept
+                cases.append({'kind': 'cv', 'build': b(node([leaf(w) for w in ws], 3)), 'path': [],
+                              'op': ['make_compat', 3 * tot, 3 * tot, '1']})               # repetition unrolled into the leaf
+                inner = node([node([leaf(w) for w in ws], 2), leaf(dict(ws[-1], d=str(2 * tot)) if ws[-1]['k'] == 'const'
+                                                                    else ws[-1], 1 if ws[-1]['k'] == 'const' else 2 * len(ws))])
+                cases.append({'kind': 'cv', 'build': b(inner), 'path': [], 'op': ['make_compat', tot, tot, '1']})
+                if vi < 2 and zk in (None, 'int'):
+                    # the same programs through the ordinary streams (tree compared with Model.v, samples before / after)
+                    cases.append({'kind': 'rw', 'build': b(node([leaf(w) for w in ws], 3), True), 'path': [],
+                                  'op': ['make_compat', tot, tot, '1']})
+                    cases.append({'kind': 'twf', 'build': b(node([leaf(w) for w in ws], 2))})
+    return cases
+
+
+def derive_cv(cases):
+    """every 8th plain rewrite case that builds or keeps leaf waveforms and every 4th to_waveform case once more as a
+    constant_value observation (kind cv)"""
+    out = []
+    k = 0
+    for c in cases:
+        if c.get('volatile') or c.get('prefix') or 'tree' not in c.get('build', {}):
+            continue
+        if c['kind'] == 'rw' and c['op'][0] in ('make_compat', 'roll', 'flatten', 'cleanup', 'unroll_children'):
+            k += 1
+            if k % 8 == 0:
+                out.append({'kind': 'cv', 'build': c['build'], 'path': c['path'], 'op': c['op']})
+        elif c['kind'] == 'twf':
+            k += 1
+            if k % 4 == 0:
+                out.append({'kind': 'cv', 'build': c['build'], 'path': [], 'op': ['twf']})
+    return out
+
+
 def _reversed_at(t, path):
     """shape of the tree after reverse_inplace at `path` (used only to choose valid paths)"""
     def rev(n):
@@ -1927,6 +2122,9 @@ def gen_cases(rng, tier, ctx):
         add('twf', b)
     cases.extend(gen_to_waveform_shapes(rng, tier))
     cases.extend(gen_wrapped_leaves(rng, tier))
+    # --- constant_value / get_sampled short cut (round 6) ------------------------------------------------------------------
+    cases.extend(derive_cv(cases))
+    cases.extend(gen_const_levels(rng, tier))
     # --- smallest_factor_ge ------------------------------------------------------------------------------------------
     ns = range(1, 61) if tier == 'quick' else range(1, 401)
     for n in ns:
@@ -2242,13 +2440,21 @@ MANIFEST = {
                   'split preference, freezing and termination proved. The rewrites executed with the recorded parent_index '
                   'refine the pure ones under the bookkeeping invariant and re-establish it (stale index refuted). '
                   'smallest_factor_ge is translated from the source on every run and proved equal to the model and correct. '
+                  'Round 6: Waveform.constant_value(channel) of the composite leaves that to_waveform / make_compatible build '
+                  '(SequenceWaveform loop, RepetitionWaveform) is modelled (Model_cv.v, atoms answer through an oracle) and '
+                  'proved sound: an answer x means every piece the waveform plays is constant at x on that channel, hence '
+                  'Waveform.get_sampled (the entry point of the drivers, which skips sampling when constant_value answers) '
+                  'equals unsafe_sample at every time of the waveform provided the atoms keep their own promise; complete on '
+                  'waveforms without an empty sequence (refuted without that guard); the loop with `not v` for `v is None` '
+                  'is refuted. '
                   'The models are tied to the code by an exact correspondence check on generated programs (tree shape, '
                   'counts, kind of count, the value of every volatile count under two other parameter assignments, '
                   'warnings, recorded indices, leaf waveforms, errors, rewrite sequences, shared waveform objects, repeated '
                   'rewrites, populated / partly populated / empty duration caches, the reported duration of every node); sampled '
                   'voltages before/after are compared on the real objects, exactly for binary-fraction durations and under '
                   'an absolute tolerance of 2^-30 for decimal durations.',
-    'level_note': 'Trusted: Coq kernel, harness (describer, reference player), leaf waveform sampling (C08), translator. '
+    'level_note': 'Trusted: Coq kernel, harness (describer, reference player), leaf waveform sampling (C08) incl. the '
+                  'per-channel constant_value answers of opaque atoms, translator. '
                   'Tested only: equality of sampled voltages on the real objects; "a failed rewrite leaves the program as it '
                   'was" (the pure model has no state to damage); termination of the real code; leaf classes other than '
                   'Constant / Table / MultiChannel / Sequence / Repetition / Reversed / Subset / Functor / Arithmetic / '
